@@ -1,7 +1,7 @@
 //! C03 — parser accepts exactly the grammar and reports the first malformed instruction (shape B, fault enumeration).
 //! Also hosts the seed universe shared with C04 and C20.
 use crate::golden::golden;
-use crate::model::{Arg, Inst};
+use crate::model::{self, Arg, Inst};
 use crate::mutate::{self, Level, Mutant, Seed};
 use crate::pcompare;
 use crate::report::{hex, viol, Run, Tier, Viol};
@@ -65,6 +65,37 @@ pub fn context_shapes() -> Vec<(Vec<Inst>, Shape)> {
     out
 }
 
+/// context shapes under id relabellings and behind function boundaries: (whole prefix incl. the type context, shape)
+pub fn context_variants() -> Vec<(Vec<Inst>, Shape)> {
+    let mut out = vec![];
+    let ctx = type_context();
+    let f1 = [
+        Inst::new("Function", Some(80), Some(81), vec![Arg::Mask("FunctionControl", 0), Arg::IdRef(82)]),
+        Inst::new("Label", None, Some(83), vec![]),
+        Inst::new("Return", None, None, vec![]),
+        Inst::new("FunctionEnd", None, None, vec![]),
+    ];
+    let f2 = [Inst::new("Function", Some(80), Some(84), vec![Arg::Mask("FunctionControl", 0), Arg::IdRef(82)]), Inst::new("Label", None, Some(85), vec![])];
+    for (pre, s) in context_shapes() {
+        if s.id.contains(":type14:") && !s.id.starts_with("Switch") {
+            // kept: unsupported widths must stay unsupported under renaming too
+        }
+        let mut whole = ctx.clone();
+        whole.extend(pre.clone());
+        for scheme in 0..model::RELABELLINGS {
+            let f = |x: u32| model::relabel(scheme, x);
+            let p: Vec<Inst> = whole.iter().map(|i| model::remap_ids(i, &f)).collect();
+            out.push((p, Shape { id: format!("{}:ids{}", s.id, scheme), inst: model::remap_ids(&s.inst, &f) }));
+        }
+        let mut p = whole.clone();
+        p.extend(f1.iter().cloned());
+        out.push((p.clone(), Shape { id: format!("{}:after-function", s.id), inst: s.inst.clone() }));
+        p.extend(f2.iter().cloned());
+        out.push((p, Shape { id: format!("{}:in-second-function", s.id), inst: s.inst.clone() }));
+    }
+    out
+}
+
 pub struct SeedSet {
     pub seeds: Vec<(Seed, Level)>,
 }
@@ -101,6 +132,17 @@ pub fn seeds(tier: Tier) -> Vec<(Seed, Level)> {
         let mut p = ctx.clone();
         p.extend(pre);
         out.push((mutate::seed(&s.id, &p, &s.inst, &[after.clone()]), Level::Full));
+    }
+    // the same contexts (a) with every id renamed (descending, scattered, across 2^16 / 2^22, below 2^32): what an id
+    // stands for must not depend on its magnitude or on the order in which ids were first seen; (b) with a complete
+    // function (and the start of a second one) between the declarations and the literal consumer: the types and
+    // values declared before a function are still known after it
+    for (pre, s) in context_variants() {
+        out.push((mutate::seed(&s.id, &pre, &s.inst, &[after.clone()]), Level::Framing));
+    }
+    // U-scale: very long instructions (strings, operand lists) with the few corruptions that matter at that size
+    for s in universe::scale_shapes(tier) {
+        out.push((mutate::seed(&s.id, &[cap.clone()], &s.inst, &[after.clone()]), Level::Scale));
     }
     // OpExtInst behind an import of each known set (and an unknown one), inside a block: table-boundary numbers
     for setname in ["GLSL.std.450", "OpenCL.std", "NonSemantic.Unknown"] {
